@@ -219,7 +219,9 @@ pub fn cleanup_scratch() {
 thread_local! {
     static RT: tokio::runtime::Runtime = tokio::runtime::Builder::new_current_thread()
         .enable_all()
-        .max_blocking_threads(2)
+        // one blocking thread = FIFO execution of tokio::fs operations, which makes
+        // `drain_blocking` a deterministic barrier
+        .max_blocking_threads(1)
         .build()
         .expect("tokio runtime");
 }
@@ -227,6 +229,16 @@ thread_local! {
 /// Run a future on this worker thread's current-thread runtime.
 pub fn block_on<F: std::future::Future>(f: F) -> F::Output {
     RT.with(|rt| rt.block_on(f))
+}
+
+/// Wait until every blocking-pool operation queued so far has finished. tokio::fs::File writes
+/// complete in the background unless flushed; code under test that drops a file without flushing
+/// (Repository::cache does) returns before the bytes are on disk. With the single blocking thread
+/// of this runtime a sentinel task is a barrier, so observations after it are deterministic.
+pub fn drain_blocking() {
+    block_on(async {
+        let _ = tokio::task::spawn_blocking(|| ()).await;
+    });
 }
 
 /// Run a future on a fresh paused-clock runtime (virtual time auto-advances).
